@@ -3,8 +3,10 @@
    The worksheet model (Model/WriteXl.v: rows appended per table, sep_lines empty rows, None padding)
    is compared with what openpyxl loads back, and the reader model is run on the loaded grid, by the
    correspondence check; styles only ever add empty cells, which the reader treats as blank. *)
-From PdV.Model Require Import WriteXl.
-From PdV Require Import XlProofs.
+From Coq Require Import List Arith.
+From PdV.Model Require Import WriteCsv WriteXl Segment Reader.
+From PdV Require Import XlProofs ParseTable RoundTrip XlRoundTrip.
+Import ListNotations.
 
 (* styling addresses exactly the rows and cells that were written, for every list of table
    dimensions, both orientations and any number of separator lines *)
@@ -25,3 +27,33 @@ Theorem C09_rows_written :
     rows_written sep_lines (n_rows (w_cols t), length (w_cols t), w_transposed t).
 Proof. exact xl_table_rows_length. Qed.
 Print Assumptions C09_rows_written.
+
+(* One native cell, as write_excel stores it, parses under its column's unit to the written value;
+   no float() / to_datetime hypothesis is involved (numbers, timestamps and booleans travel as such). *)
+Theorem C09_cell_roundtrip :
+  forall (parse_float : str -> option ftok) (parse_dt : str -> dres) u first v,
+    wf_xval u first v -> cell_parser parse_float parse_dt u (xl_cell u first v) = CVal (value_of u v).
+Proof. exact xl_cell_roundtrip. Qed.
+Print Assumptions C09_cell_roundtrip.
+
+(* The rows appended for a well-formed table (either orientation, zero or more rows), each padded
+   with None to any sheet width, parse back to the table. *)
+Theorem C09_table_roundtrip :
+  forall (parse_float : str -> option ftok) (parse_dt : str -> dres) (cfg : fixer_cfg) (w : nat) (t : wtable),
+    wf_xtable t ->
+    parse_table parse_float parse_dt cfg (map (pad_row w) (xl_core_rows t)) fx_init = Ok (table_read_back t).
+Proof. exact xl_table_roundtrip. Qed.
+Print Assumptions C09_table_roundtrip.
+
+(* Every table of a sheet (any tables before and after it, any sep_lines >= 1) is one TABLE block of
+   the sheet as read back, its origin the row where it was appended, and that block parses to it. *)
+Theorem C09_sheet_table_roundtrip :
+  forall (parse_float : str -> option ftok) (parse_dt : str -> dres) (cfg : fixer_cfg)
+         (sep_lines : nat) (pre : list wtable) (t : wtable) (post : list wtable),
+    1 <= sep_lines -> wf_xtable t -> xl_plain sep_lines pre post t ->
+    let rows := map (pad_row (width sep_lines pre post t)) (xl_core_rows t) in
+    In (BTable, length (flat_map (xl_table_rows sep_lines) pre), rows)
+       (segment_rows (sheet_rows sep_lines (pre ++ t :: post))) /\
+    parse_table parse_float parse_dt cfg rows fx_init = Ok (table_read_back t).
+Proof. exact sheet_table_roundtrip. Qed.
+Print Assumptions C09_sheet_table_roundtrip.
